@@ -616,6 +616,10 @@ func (h *OperationProvider) validateProvisionalIndexCASReferences(pif *models.Pr
 	}
 
 	if len(pif.Chunks) > 0 {
+		if pif.Chunks[0].ChunkFileURI == "" {
+			return errors.New("missing chunk file URI")
+		}
+
 		if err := h.validateURI(pif.Chunks[0].ChunkFileURI); err != nil {
 			return errors.Wrapf(err, "chunk URI")
 		}
